@@ -146,6 +146,42 @@ def tracking_cut_scenarios():
     return out
 
 
+def init_charge_scenarios():
+    """TrackOrder::init_charge with MORE primaries than slots and neutral + charged initializers
+    in the same initialisation pass while vacancies are scarce (new tracks fill all / almost all
+    vacancies, so the front partition (neutral) and the back partition (charged) meet): every
+    primary and every secondary must still get its own slot"""
+    out = []
+    for k, (slots, ng, nc, inter) in enumerate(((16, 16, 16, 1), (16, 20, 12, 1), (8, 9, 7, 0),
+                                                (16, 13, 19, 1), (4, 5, 3, 1))):
+        # interleaved, so that every initialisation pass sees neutral AND charged initializers
+        prim, g, c, j = [], ng, nc, 0
+        while g > 0 or c > 0:
+            if g > 0:
+                n = min(g, 1 + (j + k) % 3)
+                prim.append(("gamma", 5.0 + 0.25 * k + 0.01 * j, [0.1, 0.0, 0.0], [1.0, 0.0, 0.0],
+                             0, n))
+                g -= n
+            if c > 0:
+                n = min(c, 1 + (j + 2 * k) % 2)
+                prim.append((["celeriton", "electron", "positron"][j % 3], 3.0 + 0.01 * j,
+                             [0.0, 0.2, 0.0], [0.0, 1.0, 0.0], 0, n))
+                c -= n
+            j += 1
+        kw = {"slots": slots, "order": "init_charge", "along": ["vlinear", "linear", "neutral"][k % 3],
+              "interactor": inter, "xsscale": 300, "capacity": 4096, "stackfactor": 3,
+              "maxsteps": 4000, "maxevents": 2, "seed": 4242 + k, "postcut": 0}
+        if kw["along"] == "neutral":
+            kw["interactor"] = 1
+        out.append(("mock", prim, kw))
+    # Compton problem: gammas + electrons as primaries, electrons as secondaries
+    out.append(("simple", [(["gamma", "electron"][j % 2], 2.0 - 0.03 * j, [0.0, 0.0, 0.0],
+                            [1.0, 0.0, 0.0], 0, 1 + j % 3) for j in range(16)],
+                {"slots": 16, "order": "init_charge", "capacity": 4096, "maxsteps": 20000,
+                 "maxevents": 2, "seed": 99}))
+    return out
+
+
 def run_harness(exe, problem, prim, kw, timeout=600):
     lines = steplog.script(problem, prim, **kw)
     rc, out = vlib.run_lines([exe], lines, timeout=timeout)
@@ -300,6 +336,18 @@ def oracle(log):
         born = {}
         for key, t in log.by_track.items():
             born.setdefault(key[0], []).append(t[0])
+        # every primary offered to the Stepper (T record: count and Σ kinetic energy of the INPUT)
+        # was transported: a primary that never takes a step (e.g. its slot overwritten by another
+        # initializer in the same initialisation pass) is energy that vanished from the event
+        for ev, tot in log.totals.items():
+            prims = [t0 for t0 in born.get(ev, []) if t0.par < 0]
+            got = math.fsum(t0.e0 for t0 in prims)
+            if len(prims) != tot["nprim"] or abs(got - tot["eprim"]) > 1e-11 * (tot["eprim"] + 1e-300):
+                fails.append(("primaries-not-all-transported",
+                              {"event": ev, "primaries_offered": tot["nprim"],
+                               "primary_tracks_seen": len(prims), "energy_offered": tot["eprim"],
+                               "energy_of_tracks_seen": got,
+                               "residual": tot["eprim"] - got, "tolerance": 1e-11 * tot["eprim"]}))
         for ev, steps in by_ev.items():
             events_done += 1
             prim = [t0 for t0 in born[ev] if t0.par < 0]
@@ -415,7 +463,8 @@ def run(ctx):
                           "a primary with event id == max_events (3) was not rejected with "
                           "'event number 3 exceeds max_events=3': " + verdict[:160],
                           {"harness": "harness/stepping.cc", "script": lines, "result": verdict})
-    tc_runs = tracking_cut_scenarios()
+    tc_runs = init_charge_scenarios() + tracking_cut_scenarios()
+    ic_cover = {"init_charge_runs": 0, "primaries": 0, "slots<primaries": 0, "completed": 0}
     tc_cover = {"anti-inflight": 0, "anti-at-init": 0, "matter-inflight": 0, "matter-at-init": 0}
     for i in range(-len(tc_runs), n_runs):
         if i < 0:
@@ -445,6 +494,12 @@ def run(ctx):
                           {"script": lines, "rc": rc, "errors": log.errors[:5]}, found_input=False)
             continue
         along = kw.get("along", "neutral")
+        if kw.get("order") == "init_charge" and i < 0:
+            npr = sum(p[5] for p in prim)
+            ic_cover["init_charge_runs"] += 1
+            ic_cover["primaries"] += npr
+            ic_cover["slots<primaries"] += 1 if kw["slots"] < npr else 0
+            ic_cover["completed"] += 1 if log.verdict == "done" else 0
         for s_ in log.steps:
             if s_.act == log.q["tracking-cut"] and s_.st[4] == "k":
                 tc_cover[("anti" if log.particles[s_.pid]["anti"] else "matter")
@@ -518,6 +573,10 @@ def run(ctx):
                                                  "first": next(((x, y) for x, y in zip(a, b)
                                                                 if x != y), None),
                                                  "len": [len(a), len(b)]}})
+    if ic_cover["completed"] < 4 or ic_cover["slots<primaries"] < 4:
+        ctx.violation("coverage-init-charge", "the init_charge scenarios (more mixed neutral/charged "
+                      "primaries than slots) no longer run to completion", {"counters": ic_cover},
+                      found_input=False)
     if min(tc_cover.values()) == 0:
         ctx.violation("coverage-tracking-cut", "no step went through the real tracking-cut action "
                       "for: " + ", ".join(k for k, v in tc_cover.items() if v == 0),
@@ -548,6 +607,7 @@ def run(ctx):
                 "ElossApplier or a post action; oracle evaluated on every step/track/event",
         "runs": stats["runs"], "steps_checked_by_oracle": stats["steps"],
         "tracking_cut_steps(real TrackingCutExecutor)": tc_cover,
+        "init_charge_scenarios": ic_cover,
         "tracks_completed": stats["tracks"], "events_completed": stats["events"],
         "steps_replayed_through_model": stats["replayed"], "model_mismatches": stats["mismatch"],
         "not_replayable": stats["skipped"], "run_verdicts": stats["verdicts"],
